@@ -58,7 +58,7 @@ def gen_world(rng, i, tier):
         k = rng.pick(uni_k)
         if r < 0.04 and (s, k) in have:
             # a value the boolean setter refuses, on a key that exists: error code, nothing changes
-            w["ops"].append(["set_badbool", spell(rng, s), k, rng.pick(["maybe", "2", "tru", "yes please", "on"])])
+            w["ops"].append(["set_badbool", spell(rng, s), k, rng.pick(["maybe", "2", "tru", "yes please", "on", "falsehood", "False positives", "truest", "noon", "yess", "11", "false ", "TRUE\n"])])
             continue
         if r < 0.40:
             have.add((s, k))
